@@ -24,8 +24,10 @@ RULE = ("random networks of 2-7 nodes (45% complete), periods 0.5-3, dissipation
         "number of distinct phases never increases and the largest group never shrinks. non-trivial = >= 2 nodes firing and >= 4 events; distinct = distinct spec")
 PARTIAL = ["'due no more than one period ahead' is a theorem (firePosted_sched) under two stated hypotheses on the arithmetic (a computed firing time never "
            "exceeds ub t = one rounded period after t; ub is monotone): facts about doubles that are exercised by the oracle, not proved",
-           "the monotonicity of synchrony on complete networks is checked on the real code by the oracle and rests in Lean on cascade_function (a bumped node's "
-           "new firing time is a function of the time and its old firing time only); the counting argument over groups is not a theorem",
+           "the monotonicity of synchrony on complete networks is checked on the real code by the oracle; in Lean: a bumped node's new firing time is a "
+           "function of the time and its old firing time only (cascade_step, sync_pair) and the counting argument over the bumped nodes of one cascade "
+           "is a theorem (cascade_groups: no more distinct due times, no group shrinks); that a firing on a complete network bumps every other node, "
+           "and the bookkeeping of the firing nodes themselves between two events at the same instant, are not part of it",
            "floating-point facts about the return map (range, monotonicity) are not theorems"]
 
 
